@@ -15,7 +15,7 @@ namespace Continuum
 
 /-- the application-data projection of a state: working copy, committed copy, savepoint copies -/
 def appData (s : St) : List (TKey × List Val) × List (TKey × List Val) × List (List (TKey × List Val)) :=
-  (s.db.live, s.committed.live, s.sps.map (·.live))
+  (s.db.live, s.committed.live, s.sps.map (·.1.live))
 
 /-- the application data after an event, computed from the application data before it alone -/
 def appStep (cfg : Cfg) (a : List (TKey × List Val) × List (TKey × List Val) × List (List (TKey × List Val)))
